@@ -1,31 +1,167 @@
 import BridgeVerif.Translated.Score
+/-!
+# `calc_score(contract, taken_tricks)` AS TRANSLATED is the duplicate scoring law from declarer's side  (C07)
+
+`calc_score` is the public entry of `bridge_env/score.py`: it reads `final_bid`, `x`, `xx` of the `Contract`, asks
+`contract.is_vul()` (which asks `declarer.is_vul(vul)`, i.e. `declarer.pair.is_vul(vul)`) and hands all that to
+`calc_bid_score`.  The theorems are about `Generated/PyCoreBase.lean` (re-written from the source on every run), executed by
+the MiniPy interpreter:
+
+* the two small methods `Contract.is_passed_out` and `Contract.is_vul` are evaluated on their whole (finite) domain of
+  vulnerabilities and declarers, for EVERY sufficiently large fuel;
+* the body of `calc_score` is executed SYMBOLICALLY, statement by statement, at an arbitrary fuel `f + 120`;
+* the nested call of `calc_bid_score` is rewritten with `calc_bid_score_any_fuel` (Score.lean: kernel evaluation on the
+  whole domain, lifted to any fuel by `mkRec_mono`).
+-/
 namespace Bridge.Translated
 open Bridge Bridge.Py Bridge.Generated.PyCore
 
-#eval (fn n_calc_score [encContract ⟨some ⟨18, by omega⟩, false, false, .ns, some .S⟩, .int 10]).int?
-#eval (fn n_calc_score [encContract ⟨some ⟨18, by omega⟩, false, false, .ns, some .E⟩, .int 10]).int?
-#eval (fn n_calc_score [encContract ⟨none, true, false, .ns, some .E⟩, .int 10]).int?
-#eval (fn n_calc_score [encContract ⟨none, true, false, .ns, none⟩, .int 100]).int?
-#eval (fn n_calc_score [encContract ⟨some ⟨18, by omega⟩, false, false, .none, none⟩, .int 10]).int?
-#eval (fn n_calc_score [encContract ⟨some ⟨18, by omega⟩, false, false, .both, none⟩, .int 10]).int?
-#eval (fn n_calc_score [encContract ⟨some ⟨18, by omega⟩, false, false, .ns, none⟩, .int 10]).exc?
-#eval (fn n_calc_score [encContract ⟨some ⟨18, by omega⟩, false, false, .ew, none⟩, .int 10]).exc?
+/-! one level of fuel unfolds one level of the interpreter -/
+section unfold
+variable (P : Program) (f : Nat)
+theorem cs_eval (env : Env) (e : Expr) : (mkRec P (f + 1)).eval env e = evalF (mkRec P f) P env e := rfl
+theorem cs_exec (env : Env) (ss : List Stmt) : (mkRec P (f + 1)).exec env ss = execF (mkRec P f) P env ss := rfl
+theorem cs_call (fd : FuncDef) (args : List Val) : (mkRec P (f + 1)).call fd args = callF (mkRec P f) fd args := rfl
+end unfold
 
-theorem passed_out_method : PB.method? classDepth n_Contract n_is_passed_out = some (n_Contract, m_Contract_is_passed_out) := rfl
+/-! what the names resolve to in the translated program -/
+theorem passed_out_method :
+    PB.method? classDepth n_Contract n_is_passed_out = some (n_Contract, m_Contract_is_passed_out) := rfl
 theorem is_vul_method : PB.method? classDepth n_Contract n_is_vul = some (n_Contract, m_Contract_is_vul) := rfl
+theorem calc_bid_score_func : findFunc PB.funcs n_calc_bid_score = some f_calc_bid_score := rfl
+theorem calc_score_func : findFunc PB.funcs n_calc_score = some f_calc_score := rfl
 
-theorem passed_out_call_none (f : Nat) (x xx : Bool) (v : Vul) (d : Option Seat) :
-    (mkRec PB (f + 10)).call m_Contract_is_passed_out [encContract ⟨none, x, xx, v, d⟩]
-      = .ok (.bool true, encContract ⟨none, x, xx, v, d⟩) := rfl
+/-! reading an encoded `Contract` (whatever the fuel: these attributes are stored fields, no property is called) -/
+section attrs
+variable (r : Rec) (c : Contract)
+theorem attr_final_bid : getAttrF r PB (encContract c) n_final_bid = .ok (encOpt encBid c.finalBid) := rfl
+theorem attr_x : getAttrF r PB (encContract c) n_x = .ok (.bool c.x) := rfl
+theorem attr_xx : getAttrF r PB (encContract c) n_xx = .ok (.bool c.xx) := rfl
+/-- a method call on an encoded `Contract` is dispatched to class `Contract` -/
+theorem methF_contract (m : Id) (args : List Val) :
+    methF r PB (encContract c) m args = callMethod r PB n_Contract m (encContract c :: args) (.exc K.AttributeError) := rfl
+end attrs
 
-theorem passed_out_call_some (f : Nat) (b : Fin 35) (x xx : Bool) (v : Vul) (d : Option Seat) :
-    (mkRec PB (f + 10)).call m_Contract_is_passed_out [encContract ⟨some b, x, xx, v, d⟩]
-      = .ok (.bool false, encContract ⟨some b, x, xx, v, d⟩) := by
-  sorry
+theorem beq_bid_pass (b : Fin 35) : (encBid b).beq (.enum n_Bid 36) = false := by simp [encBid, Val.beq]; omega
+theorem beq_bid_none (b : Fin 35) : (encBid b).beq .none = false := by simp [encBid, Val.beq]
 
-theorem is_vul_call_some (f : Nat) (ob : Option (Fin 35)) (x xx : Bool) (v : Vul) (d : Seat) :
-    (mkRec PB (f + 30)).call m_Contract_is_vul [encContract ⟨ob, x, xx, v, some d⟩]
+/-! ## the two methods of `Contract` that `calc_score` calls -/
+
+/-- `Contract.is_passed_out()`: `final_bid is Bid.Pass or final_bid is None`; `self` is left as it was -/
+theorem passed_out_call (g : Nat) (hg : 10 ≤ g) (ob : Option (Fin 35)) (x xx : Bool) (v : Vul) (d : Option Seat) :
+    (mkRec PB g).call m_Contract_is_passed_out [encContract ⟨ob, x, xx, v, d⟩]
+      = .ok (.bool ob.isNone, encContract ⟨ob, x, xx, v, d⟩) := by
+  obtain ⟨f, rfl⟩ : ∃ f, g = f + 10 := ⟨g - 10, by omega⟩
+  cases ob with
+  | none => with_unfolding_all rfl
+  | some b =>
+    simp [cs_call, cs_exec, cs_eval, callF, m_Contract_is_passed_out, bindParams, execF, execStmtF, evalF, attr_final_bid,
+      encOpt, lookup, cmpF, beq_bid_pass, beq_bid_none, truthy, bind, Except.bind, pure, Except.pure]
+
+/-- `Contract.is_vul()` with a declarer: the vulnerability of DECLARER'S SIDE (4 vulnerabilities × 4 seats, each one
+evaluated through `Player.is_vul` → `Player.pair` → `Pair.is_vul`) -/
+theorem is_vul_call_some (g : Nat) (hg : 30 ≤ g) (ob : Option (Fin 35)) (x xx : Bool) (v : Vul) (d : Seat) :
+    (mkRec PB g).call m_Contract_is_vul [encContract ⟨ob, x, xx, v, some d⟩]
       = .ok (.bool (sideVulnerable v d), encContract ⟨ob, x, xx, v, some d⟩) := by
-  cases v <;> cases d <;> rfl
+  obtain ⟨f, rfl⟩ : ∃ f, g = f + 30 := ⟨g - 30, by omega⟩
+  cases v <;> cases d <;> with_unfolding_all rfl
+
+/-- `Contract.is_vul()` without a declarer: `False` / `True` when nobody / everybody is vulnerable, else `ValueError` -/
+theorem is_vul_call_none (g : Nat) (hg : 30 ≤ g) (ob : Option (Fin 35)) (x xx : Bool) (v : Vul) :
+    (mkRec PB g).call m_Contract_is_vul [encContract ⟨ob, x, xx, v, none⟩]
+      = match v with
+        | .none => .ok (.bool false, encContract ⟨ob, x, xx, v, none⟩)
+        | .both => .ok (.bool true, encContract ⟨ob, x, xx, v, none⟩)
+        | _ => .error (.exc K.ValueError) := by
+  obtain ⟨f, rfl⟩ : ∃ f, g = f + 30 := ⟨g - 30, by omega⟩
+  cases v <;> with_unfolding_all rfl
+
+/-! ## the body of `calc_score`, executed symbolically at fuel `f + 120` -/
+
+/-- a passed-out contract: the first statement returns 0 (neither `is_vul` nor `calc_bid_score` is reached) -/
+theorem calc_score_call_passed_out (x xx : Bool) (v : Vul) (od : Option Seat) (a : Val) (f : Nat) :
+    (mkRec PB (f + 120)).call f_calc_score [encContract ⟨none, x, xx, v, od⟩, a]
+      = .ok (.int 0, encContract ⟨none, x, xx, v, od⟩) := by
+  have hp := passed_out_call (f + 117) (by omega) none x xx v od
+  rw [cs_call]
+  simp [cs_exec, cs_eval, callF, f_calc_score, bindParams, execF, execStmtF, evalF, methF_contract, callMethod,
+    passed_out_method, mapR, truthy, lookup, n_contract, n_taken_tricks, bind, Except.bind, pure, Except.pure, hp]
+
+/-- a contract with a final bid, when `contract.is_vul()` returns `vul`: the result is `calc_bid_score`'s, which is the law -/
+theorem calc_score_call_ok (b : Fin 35) (x xx : Bool) (v : Vul) (od : Option Seat) (t : Nat) (ht : t ≤ 13) (f : Nat)
+    (vul : Bool) (s : Val)
+    (hv : (mkRec PB (f + 116)).call m_Contract_is_vul [encContract ⟨some b, x, xx, v, od⟩] = .ok (.bool vul, s)) :
+    (mkRec PB (f + 120)).call f_calc_score [encContract ⟨some b, x, xx, v, od⟩, .int t]
+      = .ok (.int (dupScore (bidLevel b) (bidDenom b) (status x xx) vul t), encContract ⟨some b, x, xx, v, od⟩) := by
+  have hp := passed_out_call (f + 117) (by omega) (some b) x xx v od
+  obtain ⟨s', hc⟩ := calc_bid_score_any_fuel b x xx vul t ht (f + 117) (by omega)
+  unfold callFn at hc
+  rw [cs_call]
+  simp [cs_exec, cs_eval, callF, f_calc_score, bindParams, execF, execStmtF, evalF, methF_contract, callMethod,
+    passed_out_method, is_vul_method, calc_bid_score_func, mapR, attr_final_bid, attr_x, attr_xx, cmpF, beq_bid_none, truthy,
+    lookup, n_contract, n_taken_tricks, bind, Except.bind, pure, Except.pure, encOpt, hp, hv, hc]
+
+/-- a contract with a final bid, when `contract.is_vul()` raises: the exception propagates out of `calc_score` -/
+theorem calc_score_call_raises (b : Fin 35) (x xx : Bool) (v : Vul) (od : Option Seat) (a : Val) (f : Nat) (e : Err)
+    (hv : (mkRec PB (f + 116)).call m_Contract_is_vul [encContract ⟨some b, x, xx, v, od⟩] = .error e) :
+    (mkRec PB (f + 120)).call f_calc_score [encContract ⟨some b, x, xx, v, od⟩, a] = .error e := by
+  have hp := passed_out_call (f + 117) (by omega) (some b) x xx v od
+  rw [cs_call]
+  simp [cs_exec, cs_eval, callF, f_calc_score, bindParams, execF, execStmtF, evalF, methF_contract, callMethod,
+    passed_out_method, is_vul_method, calc_bid_score_func, mapR, attr_final_bid, attr_x, attr_xx, cmpF, beq_bid_none, truthy,
+    lookup, n_contract, n_taken_tricks, bind, Except.bind, pure, Except.pure, encOpt, hp, hv]
+
+/-! ## the translated program, run as the harness runs it (`fn` = `PB.runFn`, fuel `topFuel`) -/
+
+theorem fn_calc_score (args : List Val) :
+    fn n_calc_score args = ((mkRec PB (99880 + 120)).call f_calc_score args).map (·.1) := rfl
+
+/-- THE TRANSLATED public entry `calc_score(contract, taken_tricks)` is the duplicate scoring law from declarer's side,
+for EVERY contract with a declarer and 0..13 tricks -/
+theorem calc_score_translated_is_law (b : Fin 35) (x xx : Bool) (v : Vul) (d : Seat) (t : Nat) (ht : t ≤ 13) :
+    (fn n_calc_score [encContract ⟨some b, x, xx, v, some d⟩, .int t]).int?
+      = some (dupScore (bidLevel b) (bidDenom b) (status x xx) (sideVulnerable v d) t) := by
+  rw [fn_calc_score, calc_score_call_ok b x xx v (some d) t ht 99880 _ _ (is_vul_call_some _ (by omega) _ x xx v d)]
+  rfl
+
+/-- a passed-out contract scores 0 whatever else it carries -/
+theorem calc_score_translated_passed_out (x xx : Bool) (v : Vul) (d : Option Seat) (t : Nat) :
+    (fn n_calc_score [encContract ⟨none, x, xx, v, d⟩, .int t]).int? = some 0 := by
+  rw [fn_calc_score, calc_score_call_passed_out]
+  rfl
+
+/-- without a declarer the score is defined exactly when the vulnerability does not depend on the side -/
+theorem calc_score_translated_no_declarer (b : Fin 35) (x xx : Bool) (v : Vul) (t : Nat) (ht : t ≤ 13) :
+    match v with
+    | .none => (fn n_calc_score [encContract ⟨some b, x, xx, v, none⟩, .int t]).int?
+        = some (dupScore (bidLevel b) (bidDenom b) (status x xx) false t)
+    | .both => (fn n_calc_score [encContract ⟨some b, x, xx, v, none⟩, .int t]).int?
+        = some (dupScore (bidLevel b) (bidDenom b) (status x xx) true t)
+    | _ => (fn n_calc_score [encContract ⟨some b, x, xx, v, none⟩, .int t]).exc? = some K.ValueError := by
+  have hv := fun v => is_vul_call_none (99880 + 116) (by omega) (some b) x xx v
+  cases v
+  · show R.int? _ = _
+    rw [fn_calc_score, calc_score_call_ok b x xx .none none t ht 99880 _ _ (hv .none)]; rfl
+  · show R.exc? _ = _
+    rw [fn_calc_score, calc_score_call_raises b x xx .ns none _ 99880 _ (hv .ns)]; rfl
+  · show R.exc? _ = _
+    rw [fn_calc_score, calc_score_call_raises b x xx .ew none _ 99880 _ (hv .ew)]; rfl
+  · show R.int? _ = _
+    rw [fn_calc_score, calc_score_call_ok b x xx .both none t ht 99880 _ _ (hv .both)]; rfl
+
+/-- only declarer's side's vulnerability matters to the translated `calc_score` -/
+theorem calc_score_translated_declarer_side_only (b : Fin 35) (x xx : Bool) (v v' : Vul) (d : Seat) (t : Nat) (ht : t ≤ 13)
+    (h : sideVulnerable v d = sideVulnerable v' d) :
+    (fn n_calc_score [encContract ⟨some b, x, xx, v, some d⟩, .int t]).int?
+      = (fn n_calc_score [encContract ⟨some b, x, xx, v', some d⟩, .int t]).int? := by
+  rw [calc_score_translated_is_law b x xx v d t ht, calc_score_translated_is_law b x xx v' d t ht, h]
+
+/-! sanity: 4♠ by South, N-S vulnerable, 10 tricks = 620; the same by East = 420; N-S vulnerable without declarer raises -/
+example : (fn n_calc_score [encContract ⟨some ⟨18, by omega⟩, false, false, .ns, some .S⟩, .int 10]).int? = some 620 := by
+  decide +kernel
+example : (fn n_calc_score [encContract ⟨some ⟨18, by omega⟩, false, false, .ns, some .E⟩, .int 10]).int? = some 420 := by
+  decide +kernel
+example : (fn n_calc_score [encContract ⟨some ⟨18, by omega⟩, false, false, .ns, none⟩, .int 10]).exc? = some K.ValueError := by
+  decide +kernel
 
 end Bridge.Translated
